@@ -522,3 +522,28 @@ Example ex_as_bytes :
   as_tuple (as_bytes true (Some 255) true) (VList [VByteArray [1]; VStr [97]]) = Ok (VTuple [VBytes [1]; VBytes [97]]) /\
   as_tuple (as_bytes false None true) (VInt 3) = Internal eTypeError.
 Proof. repeat split. Qed.
+
+(* hypotheses of the value-semantics theorem, of the history theorems and of the
+   immutable-mutators theorem are satisfiable *)
+Example ex_forall2 :
+  Forall2 (fun x y => rd_eqb x y = true) [ex_a; ex_b] [ex_A; ex_b] /\
+  Forall2 (fun x y => rd_eqb x y = true) (sunion rd_eqb [ex_a; ex_b] [ex_rel]) (sunion rd_eqb [ex_A; ex_b] [ex_rel]).
+Proof. split; repeat constructor. Qed.
+
+Example ex_history :
+  let ops := [RNew 0 1 2 0 0; RAdd 0 ex_a (Some 300); RNew 1 1 2 0 0; RAdd 1 ex_A (Some 60); RAdd 1 ex_b None] in
+  exists s os, nth_error (rexec [] ops) 0 = Some s /\ nth_error (rexec [] ops) 1 = Some os /\
+    kd s <> KImm /\ mergeable s os /\ is_singleton (typ s) = false /\
+    fst (rstep (rexec [] ops) (RInpl IXor 0 1)) = [mkRds KRds 1 2 0 60 [ex_b] [] None; os].
+Proof.
+  cbv zeta. eexists. eexists. split; [reflexivity|]. split; [reflexivity|].
+  split; [discriminate|]. split; [|split; reflexivity].
+  split; [reflexivity|]. split; [reflexivity|]. cbn. intros H. discriminate H.
+Qed.
+
+Example ex_immutable_blocked :
+  let st := [mkRds KImm 1 2 0 300 [ex_a] [] None; ex_ns2] in
+  rstep st (RInpl IOr 0 1) = (st, E eTypeError) /\ rstep st (RAdd 0 ex_b (Some 1)) = (st, E eTypeError) /\
+  rstep st (RInpl ISub 0 0) = (st, E eTypeError) /\
+  fst (rstep st (RFunc FOr 2 0 1)) = st ++ [mkRds KImm 1 2 0 60 [ex_a; ex_b] [] None].
+Proof. repeat split. Qed.
